@@ -14,7 +14,7 @@ OPS = [o for o in OPS if o[0] != 'N']
 CURVES = ['NIST_P256', 'BSI_P256', 'SM2_P256', 'SECG_K256', 'SM9_P256', 'BN_P256']
 SIZES = ['norm', 'norm', 'norm', 'small', 'half', 'big', 'full', 'zero', 'one', 'order']
 # scalar classes of the quantifier: reduce to zero only after reduction, negative, zero digits inside recodings
-SCALAR_SIZES = ['order', 'order2', 'order3', 'negord', 'zdig', 'lowzero', 'pow2', 'ones', 'zero', 'one']
+SCALAR_SIZES = ['order', 'order2', 'order3', 'negord', 'negbig', 'negbig', 'zdig', 'lowzero', 'pow2', 'ones', 'zero', 'one']
 SCALAR_OPS = ('ep_mul', 'g1_mul', 'g2_mul', 'gt_exp', 'bn_rec', 'cap_rec', 'bn_mxp', 'fp_exp')
 # array-taking (simultaneous / batch) ops: the element count is part of the quantifier (all n >= 0)
 ARRAY_OPS = {'bn_lag', 'bn_evl', 'bn_mod_inv_sim', 'bn_mxp_sim_lot', 'fp_inv_sim', 'fp2_inv_sim', 'ep_norm_sim', 'ep_mul_sim_lotn',
